@@ -183,3 +183,46 @@ def transforms(ctx, repo):
 
 
 ALL = [dispatch_exhaustive, arity_agreement, stack_limit, topology, transforms]
+
+
+def width_pair(ctx, repo):
+    ctx.rule("CFF-width", "advance widths in CFF charstrings: every writer that prepends a width operand tests the glyph's width against the defaultWidthX of that glyph's own Private dict and writes width - nominalWidthX of the same dict; the reader adds nominalWidthX to an explicit operand and falls back to defaultWidthX", floor=3)
+    ps = repo.mod("misc/psCharStrings.py")
+    r = ps.func("T2WidthExtractor.popallWidth")
+    exp = [norm(st.value) for st in ast.walk(r.node) if isinstance(st, ast.Assign) and norm(st.targets[0]) == "self.width"]
+    ok = sorted(exp) == ["self.defaultWidthX", "self.nominalWidthX + args[0]"]
+    ctx.ob("CFF-width", r.where, f"reader: width = {exp}", ok)
+    n = 0
+    for rel in ("cffLib/CFF2ToCFF.py", "cffLib/__init__.py", "pens/t2CharStringPen.py", "fontBuilder.py", "cffLib/transforms.py", "subset/cff.py"):
+        if not repo.has(rel):
+            continue
+        mod = repo.mod(rel)
+        for q, f in sorted(mod.funcs.items()):
+            for st in walk_no_nested(f.node):
+                if not (isinstance(st, ast.If) and isinstance(st.test, ast.Compare) and len(st.test.ops) == 1 and isinstance(st.test.ops[0], ast.NotEq)):
+                    continue
+                sides = [norm(st.test.left), norm(st.test.comparators[0])]
+                dflt = [x for x in sides if x.endswith("defaultWidthX")]
+                ins = [c for b in st.body for c in calls_in(b) if last_attr(c) == "insert" and len(c.args) == 2 and norm(c.args[0]) == "0"]
+                if not ins:
+                    continue
+                n += 1
+                wvar = [x for x in sides if not x.endswith("defaultWidthX")]
+                val = ins[0].args[1]
+                okv = isinstance(val, ast.BinOp) and isinstance(val.op, ast.Sub) and norm(val.right).endswith("nominalWidthX")
+                same_dict = bool(dflt) and okv and norm(val.right)[: -len("nominalWidthX")] == dflt[0][: -len("defaultWidthX")]
+                same_w = bool(wvar) and okv and norm(val.left) == wvar[0]
+                ok = bool(dflt) and okv and same_dict and same_w
+                ctx.ob("CFF-width", f.where, f"if {norm(st.test)}: insert(0, {norm(val)})", ok, "" if ok else "the width test and the written operand must use defaultWidthX / nominalWidthX of the glyph's own Private dict and the same width value")
+    if n == 0:
+        raise AnalysisError("CFF-width: no width-prepending writer found")
+    cw = repo.mod("cffLib/CFF2ToCFF.py").func("_convertCFF2ToCFF")
+    st = [s for s in ast.walk(cw.node) if isinstance(s, ast.Assign) and isinstance(s.targets[0], ast.Attribute) and s.targets[0].attr in ("defaultWidthX", "nominalWidthX")]
+    vals = {s.targets[0].attr: norm(s.value) for s in st}
+    un = [s for s in ast.walk(cw.node) if isinstance(s, ast.Assign) and isinstance(s.targets[0], ast.Tuple) and isinstance(s.value, ast.Call) and call_name(s.value) == "optimizeWidths"]
+    order = [norm(e) for e in un[0].targets[0].elts] if un else []
+    ok = len(order) == 2 and vals.get("defaultWidthX") == order[0] and vals.get("nominalWidthX") == order[1]
+    ctx.ob("CFF-width", cw.where, f"optimizeWidths() -> {order}; stored {vals}", ok, "" if ok else "optimizeWidths returns (default, nominal); they are stored crosswise")
+
+
+ALL.append(width_pair)
